@@ -1,5 +1,7 @@
 ------------------------------- MODULE H2Relay -------------------------------
-(* One direction of the HTTP/2 relay: sender A -> relay -> receiver B.          *)
+(* One direction of the HTTP/2 relay (C09, C10): sender A -> relay -> receiver B. *)
+(* internal/martian/h2/relay.go processFrame / data / header / enqueueFrame /      *)
+(* emitEligibleFrames / updateWindow / updateInitialWindowSize / sendWindowUpdates. *)
 (* B's control frames (WINDOW_UPDATE, SETTINGS) travel back through ctl and are  *)
 (* applied by the opposite relay's reader via r.peer.update*() under flowMu.     *)
 EXTENDS Integers, Sequences, FiniteSets, TLC, SequencesExt
@@ -8,18 +10,21 @@ CONSTANTS Streams, W0, C0, MF0, DataSizes, PadSizes, Incs, InitWins, MaxFrames,
           MaxSend, MaxCtl, OutCap,
           Eager, MaxCtlQ,   \* Eager: writer delivers at once (no out interleaving); MaxCtlQ: ctl frames in flight
           BugContES,      \* TRUE: model relay.go:584 (continuation always END_STREAM)
-          BugPadCredit    \* TRUE: model relay.go:496 (credit payload only)
+          BugPadCredit,   \* TRUE: model relay.go:496 (credit payload only)
+          EncodeAtEnqueue \* TRUE: header blocks are HPACK-encoded when queued (as the code did), not when written
 
 VARIABLES q, sw, bufs, cw, iw, mf, out, cont,      \* relay (flowMu-protected + continuation state)
           ctl,                                     \* B -> relay control frames in flight
           gS, gC, bad, badMF,                      \* B's credit ledger, as processed by the relay (ghost)
           aFC, aFCc, aCred, aCredC,                \* A's ledger (ghost)
-          sentLog, dlvLog, nSend, nCtl
+          sentLog, dlvLog, nSend, nCtl,
+          hcount, encOrder, dlvOrder               \* ghost: header blocks in the order encoded / delivered
 
 rel   == <<q, sw, bufs, cw, out>>
 ledg  == <<gS, gC, bad, badMF>>
 aled  == <<aFC, aFCc, aCred, aCredC>>
-vars  == <<rel, iw, mf, cont, ctl, ledg, aled, sentLog, dlvLog, nSend, nCtl>>
+hp    == <<hcount, encOrder, dlvOrder>>
+vars  == <<rel, iw, mf, cont, ctl, ledg, aled, sentLog, dlvLog, nSend, nCtl, hp>>
 
 NoCont == [s |-> 0, es |-> FALSE]
 FC(f) == IF f.t = "D" THEN f.n ELSE 0
@@ -31,6 +36,7 @@ Init ==
   /\ aFC = [s \in Streams |-> 0] /\ aFCc = 0 /\ aCred = [s \in Streams |-> 0] /\ aCredC = 0
   /\ sentLog = [s \in Streams |-> <<>>] /\ dlvLog = [s \in Streams |-> <<>>]
   /\ nSend = 0 /\ nCtl = 0
+  /\ hcount = 0 /\ encOrder = <<>> /\ dlvOrder = <<>>
 
 \* relay.go:483 outputBuffer(): created on first use with the *current* initial window
 Buf(s) == IF s \in bufs THEN sw[s] ELSE iw
@@ -51,35 +57,56 @@ Debit(em, s1, c1, b1, m1) ==
              b1 \/ (FC(f) > 0 /\ (FC(f) > s1[f.s] \/ FC(f) > c1)),
              m1 \/ FC(f) > mf)
 
-\* logical stream content as atoms: one "b" per DATA octet, "h" per header list, "ES", "r"
-Elems(kind, n, es) == [i \in 1..n |-> kind] \o (IF es THEN <<"ES">> ELSE <<>>)
+\* logical stream content, run-length encoded: [k |-> "b", n |-> octets] for DATA (adjacent runs merge),
+\* [k |-> "h"] per header list, [k |-> "ES"], [k |-> "r"]
+El(k, n) == [k |-> k, n |-> n]
+AddData(lg, n) == IF n = 0 THEN lg
+                  ELSE IF lg # <<>> /\ lg[Len(lg)].k = "b" THEN [lg EXCEPT ![Len(lg)].n = @ + n]
+                  ELSE Append(lg, El("b", n))
+AddEl(lg, kind, n, es) ==
+  LET a == IF kind = "b" THEN AddData(lg, n) ELSE Append(lg, El(kind, 0))
+  IN IF es THEN Append(a, El("ES", 0)) ELSE a
+\* d is a prefix of s (a DATA run may be partially delivered)
+LogPrefix(d, s) ==
+  \/ d = <<>>
+  \/ /\ Len(d) <= Len(s)
+     /\ \A i \in 1..(Len(d) - 1) : d[i] = s[i]
+     /\ LET a == d[Len(d)]  b == s[Len(d)] IN a = b \/ (a.k = "b" /\ b.k = "b" /\ a.n <= b.n)
 
 RECURSIVE Deliver(_, _)
 Deliver(em, lg) ==
   IF em = <<>> THEN lg
   ELSE LET f == Head(em) IN
-       Deliver(Tail(em), [lg EXCEPT ![f.s] = @ \o
-             (CASE f.t = "D" -> Elems("b", f.n, f.es)
-                [] f.t = "H" -> Elems("h", 1, f.es)
-                [] f.t = "R" -> <<"r">>)])
+       Deliver(Tail(em), [lg EXCEPT ![f.s] =
+             (CASE f.t = "D" -> AddEl(@, "b", f.n, f.es)
+                [] f.t = "H" -> AddEl(@, "h", 0, f.es)
+                [] f.t = "R" -> AddEl(@, "r", 0, FALSE))])
 
-Commit(nq, nsw, nbufs, ncw, em, gS1, gC1) ==
-  LET d == Debit(em, gS1, gC1, bad, badMF) IN
+\* ids of the header blocks among emitted frames
+HIds(em) == LET hs == SelectSeq(em, LAMBDA f : f.t = "H") IN [i \in 1..Len(hs) |-> hs[i].h]
+\* enq: ids of header blocks queued by this step (encoded now if EncodeAtEnqueue)
+CommitH(nq, nsw, nbufs, ncw, em, gS1, gC1, enq) ==
+  LET d == Debit(em, gS1, gC1, bad, badMF)
+      dl == IF Eager THEN HIds(em) ELSE <<>> IN
+  /\ dlvOrder' = dlvOrder \o dl
+  /\ encOrder' = IF EncodeAtEnqueue THEN encOrder \o enq ELSE encOrder \o dl
+  /\ hcount' = hcount + Len(enq)
   /\ Len(out) + Len(em) <= OutCap          \* writer keeps up (bounded channel, relay.go:99)
   /\ q' = nq /\ sw' = nsw /\ bufs' = nbufs /\ cw' = ncw
   /\ IF Eager THEN out' = out /\ dlvLog' = Deliver(em, dlvLog) ELSE out' = out \o em /\ UNCHANGED dlvLog
   /\ gS' = d.gS /\ gC' = d.gC /\ bad' = d.bad /\ badMF' = d.badMF
+Commit(nq, nsw, nbufs, ncw, em, gS1, gC1) == CommitH(nq, nsw, nbufs, ncw, em, gS1, gC1, <<>>)
 
 \* enqueue frames fs on stream s, then emit that stream (relay.go:463 / :387-390)
 EnqueueEmit(s, fs) ==
   LET r == EmitStream(q[s] \o fs, Buf(s), cw, <<>>) IN
-  Commit([q EXCEPT ![s] = r.queue], [sw EXCEPT ![s] = r.w], bufs \cup {s}, r.c, r.emitted, gS, gC)
+  CommitH([q EXCEPT ![s] = r.queue], [sw EXCEPT ![s] = r.w], bufs \cup {s}, r.c, r.emitted, gS, gC, HIds(fs))
 
 \* relay.go:364 data(): split to the receiver's max frame size, END_STREAM on last fragment
 RECURSIVE Split(_, _, _, _)
 Split(s, n, es, m) ==
-  IF n <= m THEN << [t |-> "D", s |-> s, n |-> n, es |-> es] >>
-  ELSE << [t |-> "D", s |-> s, n |-> m, es |-> FALSE] >> \o Split(s, n - m, es, m)
+  IF n <= m THEN << [t |-> "D", s |-> s, n |-> n, es |-> es, h |-> 0] >>
+  ELSE << [t |-> "D", s |-> s, n |-> m, es |-> FALSE, h |-> 0] >> \o Split(s, n - m, es, m)
 
 
 (* ---- sender A (frames read by relayFrames -> processFrame) ---- *)
@@ -89,33 +116,33 @@ ASendData(s, n, pad, es) ==
   \* relay.go:224-229 + :496 sendWindowUpdates: immediate credit to the sender
   /\ LET cr == IF BugPadCredit THEN n ELSE n + pad IN
        /\ aCred' = [aCred EXCEPT ![s] = @ + cr] /\ aCredC' = aCredC + cr
-  /\ sentLog' = [sentLog EXCEPT ![s] = @ \o Elems("b", n, es)]
+  /\ sentLog' = [sentLog EXCEPT ![s] = AddEl(@, "b", n, es)]
   /\ EnqueueEmit(s, Split(s, n, es, mf))
   /\ UNCHANGED <<iw, mf, cont, ctl, nCtl>>
 
 ASendHeaders(s, es) ==                 \* HEADERS with END_HEADERS
   /\ nSend < MaxSend /\ cont.s = 0 /\ nSend' = nSend + 1
-  /\ sentLog' = [sentLog EXCEPT ![s] = @ \o Elems("h", 1, es)]
-  /\ EnqueueEmit(s, << [t |-> "H", s |-> s, n |-> 0, es |-> es] >>)
+  /\ sentLog' = [sentLog EXCEPT ![s] = AddEl(@, "h", 0, es)]
+  /\ EnqueueEmit(s, << [t |-> "H", s |-> s, n |-> 0, es |-> es, h |-> hcount + 1] >>)
   /\ UNCHANGED <<iw, mf, cont, ctl, aled, nCtl>>
 
 ASendHeadersOpen(s, es) ==             \* HEADERS without END_HEADERS: relay.go:231-234
   /\ nSend < MaxSend /\ cont.s = 0 /\ nSend' = nSend + 1
   /\ cont' = [s |-> s, es |-> es]
-  /\ sentLog' = [sentLog EXCEPT ![s] = @ \o Elems("h", 1, es)]
-  /\ UNCHANGED <<rel, iw, mf, ctl, ledg, aled, dlvLog, nCtl>>
+  /\ sentLog' = [sentLog EXCEPT ![s] = AddEl(@, "h", 0, es)]
+  /\ UNCHANGED <<rel, iw, mf, ctl, ledg, aled, dlvLog, nCtl, hp>>
 
 AContinuation ==                       \* CONTINUATION with END_HEADERS: relay.go:294-303, :584
   /\ cont.s # 0
   /\ LET es == IF BugContES THEN TRUE ELSE cont.es IN
-       EnqueueEmit(cont.s, << [t |-> "H", s |-> cont.s, n |-> 0, es |-> es] >>)
+       EnqueueEmit(cont.s, << [t |-> "H", s |-> cont.s, n |-> 0, es |-> es, h |-> hcount + 1] >>)
   /\ cont' = NoCont
   /\ UNCHANGED <<iw, mf, ctl, aled, sentLog, nSend, nCtl>>
 
 ASendRst(s) ==
   /\ nSend < MaxSend /\ cont.s = 0 /\ nSend' = nSend + 1
-  /\ sentLog' = [sentLog EXCEPT ![s] = @ \o <<"r">>]
-  /\ EnqueueEmit(s, << [t |-> "R", s |-> s, n |-> 0, es |-> FALSE] >>)
+  /\ sentLog' = [sentLog EXCEPT ![s] = AddEl(@, "r", 0, FALSE)]
+  /\ EnqueueEmit(s, << [t |-> "R", s |-> s, n |-> 0, es |-> FALSE, h |-> 0] >>)
   /\ UNCHANGED <<iw, mf, cont, ctl, aled, nCtl>>
 
 (* ---- writer goroutine: output channel -> B (relay.go:165-184) ---- *)
@@ -123,17 +150,19 @@ WriterSend ==
   /\ out # <<>>
   /\ LET f == Head(out) IN
        /\ out' = Tail(out)
-       /\ dlvLog' = [dlvLog EXCEPT ![f.s] = @ \o
-             (CASE f.t = "D" -> Elems("b", f.n, f.es)
-                [] f.t = "H" -> Elems("h", 1, f.es)
-                [] f.t = "R" -> <<"r">>)]
-  /\ UNCHANGED <<q, sw, bufs, cw, iw, mf, cont, ctl, ledg, aled, sentLog, nSend, nCtl>>
+       /\ dlvLog' = [dlvLog EXCEPT ![f.s] =
+             (CASE f.t = "D" -> AddEl(@, "b", f.n, f.es)
+                [] f.t = "H" -> AddEl(@, "h", 0, f.es)
+                [] f.t = "R" -> AddEl(@, "r", 0, FALSE))]
+       /\ dlvOrder' = IF f.t = "H" THEN Append(dlvOrder, f.h) ELSE dlvOrder
+       /\ encOrder' = IF f.t = "H" /\ ~EncodeAtEnqueue THEN Append(encOrder, f.h) ELSE encOrder
+  /\ UNCHANGED <<q, sw, bufs, cw, iw, mf, cont, ctl, ledg, aled, sentLog, nSend, nCtl, hcount>>
 
 (* ---- receiver B issues control frames ---- *)
 BCtl(f) ==
   /\ nCtl < MaxCtl /\ nCtl' = nCtl + 1 /\ Len(ctl) < MaxCtlQ
   /\ ctl' = Append(ctl, f)
-  /\ UNCHANGED <<rel, iw, mf, cont, ledg, aled, sentLog, dlvLog, nSend>>
+  /\ UNCHANGED <<rel, iw, mf, cont, ledg, aled, sentLog, dlvLog, nSend, hp>>
 
 (* ---- relay applies B's control frames (peer reader thread, under flowMu) ---- *)
 \* relay.go:472 sendQueuedFramesUnderWindowSize ranges over a Go map: any order
@@ -169,7 +198,7 @@ ApplyCtl ==
                /\ UNCHANGED mf
           [] f.t = "SM" ->
                /\ mf' = f.v
-               /\ UNCHANGED <<rel, iw, ledg, dlvLog>>
+               /\ UNCHANGED <<rel, iw, ledg, dlvLog, hp>>
   /\ UNCHANGED <<cont, aled, sentLog, nSend, nCtl>>
 
 Next ==
@@ -192,6 +221,8 @@ CreditReturned   == aCredC = aFCc /\ \A s \in Streams : aCred[s] = aFC[s]      \
 NoEligibleQueued ==                            \* C09/C10: nothing that fits stays queued
   \A s \in Streams : q[s] # <<>> => (FC(Head(q[s])) > cw \/ FC(Head(q[s])) > Buf(s))
 LedgerAgrees     == gC = cw /\ \A s \in bufs : gS[s] = sw[s]     \* relay windows = B's ledger
-PrefixFidelity   == \A s \in Streams : IsPrefix(dlvLog[s], sentLog[s])         \* C10
+\* C10: the receiver decodes header blocks in the order the relay encoded them (HPACK state stays in step)
+HpackInOrder     == \A i \in 1..Len(dlvOrder) : i <= Len(encOrder) /\ dlvOrder[i] = encOrder[i]
+PrefixFidelity   == \A s \in Streams : LogPrefix(dlvLog[s], sentLog[s])        \* C10
 AllDelivered     == <>[](\A s \in Streams : q[s] = <<>> => dlvLog[s] = sentLog[s]) \* C10 liveness
 ==============================================================================
